@@ -3,6 +3,7 @@
 package main
 
 import (
+	"math"
 	"context"
 	"crypto/sha256"
 	"fmt"
@@ -317,6 +318,12 @@ func (e *poolEngine) step(ws []string) string {
 		default:
 			// arrival stamps of group g are <= groupTime[g]; those of the next group are > groupTime[g] + 12ms
 			d = now - older - 6000000
+		}
+		switch o["tol"] { // an extreme tolerance ("never", or centuries): nothing is that old, whatever cut says (given as cut=0)
+		case "max":
+			d = math.MaxInt64
+		case "250y":
+			d = int64(250 * 365 * 24 * time.Hour)
 		}
 		n := e.mp.RemoveAliveTimeoutTxs(time.Duration(d))
 		return fmt.Sprintf("removed=%d", n)
